@@ -9,6 +9,7 @@ package core
 import (
 	"context"
 	"fmt"
+	"regexp"
 	"sort"
 	"strings"
 	"sync"
@@ -17,6 +18,7 @@ import (
 
 	log "github.com/hashicorp/go-hclog"
 	"github.com/openbao/openbao/sdk/v2/helper/verif/physx"
+	"github.com/openbao/openbao/sdk/v2/helper/verif/sched"
 	"github.com/openbao/openbao/sdk/v2/logical"
 	"github.com/openbao/openbao/sdk/v2/physical"
 	"github.com/openbao/openbao/sdk/v2/physical/inmem"
@@ -90,6 +92,7 @@ func coreConfig(phys physical.Backend, opt Options, rec *RecState) *vault.CoreCo
 // Build creates and initialises a brand-new system.
 func Build(t *testing.T, opt Options) *Sys {
 	t.Helper()
+	sched.InstallDetRand(0x5eed)
 	rec := NewRecState()
 	phys := physx.New(newInner(opt))
 	c := vault.TestCoreWithSealAndUINoCleanup(t, coreConfig(phys, opt, rec))
@@ -144,6 +147,8 @@ func (s *Sys) Image() *Image {
 // BootData starts a new Core over the given raw content (restart / crash
 // recovery): NewCore + unseal with the saved shares.
 func BootData(t *testing.T, data map[string][]byte, img *Image) (*Sys, error) {
+	sched.InstallDetRand(0x5eed)
+	sched.ResetDetRand()
 	inner := newInner(img.Opt)
 	if err := physx.Restore(inner, data); err != nil {
 		return nil, err
@@ -175,8 +180,37 @@ func Boot(t *testing.T, img *Image) *Sys {
 	return s
 }
 
+var (
+	impureMu    sync.Mutex
+	impureTally = map[string]int{}
+	impureTotal int
+)
+
+var maskRun = regexp.MustCompile(`[A-Za-z0-9-]{16,}`)
+
+// ImpureReport lists storage operations that unmanaged goroutines issued while
+// an exploration was active (they are the unowned nondeterminism).
+func ImpureReport() (int, []string) {
+	impureMu.Lock()
+	defer impureMu.Unlock()
+	var out []string
+	for k, v := range impureTally {
+		out = append(out, fmt.Sprintf("%dx %s", v, k))
+	}
+	sort.Strings(out)
+	return impureTotal, out
+}
+
 func (s *Sys) Close() {
 	defer func() { _ = recover() }()
+	if n := s.Phys.Impure(); n > 0 {
+		impureMu.Lock()
+		impureTotal += n
+		for _, op := range s.Phys.ImpureOps() {
+			impureTally[maskRun.ReplaceAllString(op, "#")]++
+		}
+		impureMu.Unlock()
+	}
 	_ = s.Core.ShutdownWait()
 }
 
